@@ -14,6 +14,8 @@ package main
 //	                    visitForStatementBody, opLoop, opStatement)
 //	order <fn>          compiler: the order of the code-generation calls in VisitWhileStatement /
 //	                    VisitForStatement (test jump, InstructionLoop, body, back-edge `emitContinue`)
+//	limit               the statements of newStackDepthLimiter / vmStackDepthLimit: how each engine derives
+//	                    its limit from runtime.Config.StackDepthLimit
 //	depth               the call-depth checks: stackDepthLimiter.OnFunctionInvocation and VM.pushCallFrame
 //
 // Output: lean/Verif/Gen/MeterFacts.lean.
@@ -283,6 +285,69 @@ func runMeterFacts(args []string) error {
 			return true
 		})
 		facts = append(facts, fact{"depth runtime.vmEnvironment.newVMConfig StackDepthLimit", vals})
+	}
+	// how each engine derives its limit from runtime.Config.StackDepthLimit: the statements of
+	// newStackDepthLimiter (interpreter environment) and vmStackDepthLimit (VM environment), flattened
+	for _, name := range []string{"runtime.newStackDepthLimiter", "runtime.vmStackDepthLimit"} {
+		_, fd, _ := w.findFunc(name)
+		if fd == nil {
+			return missing(name)
+		}
+		var vals []string
+		var walk func(stmts []ast.Stmt)
+		walk = func(stmts []ast.Stmt) {
+			for _, st := range stmts {
+				switch st := st.(type) {
+				case *ast.IfStmt:
+					vals = append(vals, "if "+types.ExprString(st.Cond))
+					walk(st.Body.List)
+					if st.Else != nil {
+						vals = append(vals, "else")
+						if b, ok := st.Else.(*ast.BlockStmt); ok {
+							walk(b.List)
+						} else {
+							walk([]ast.Stmt{st.Else})
+						}
+					}
+					vals = append(vals, "end")
+				case *ast.AssignStmt:
+					var l, r []string
+					for _, e := range st.Lhs {
+						l = append(l, types.ExprString(e))
+					}
+					for _, e := range st.Rhs {
+						r = append(r, types.ExprString(e))
+					}
+					vals = append(vals, strings.Join(l, ", ")+" "+st.Tok.String()+" "+strings.Join(r, ", "))
+				case *ast.IncDecStmt:
+					vals = append(vals, types.ExprString(st.X)+st.Tok.String())
+				case *ast.ReturnStmt:
+					var r []string
+					for _, e := range st.Results {
+						if cl, ok := e.(*ast.UnaryExpr); ok {
+							if lit, ok := cl.X.(*ast.CompositeLit); ok {
+								var kv []string
+								for _, el := range lit.Elts {
+									if pair, ok := el.(*ast.KeyValueExpr); ok {
+										kv = append(kv, types.ExprString(pair.Key)+": "+types.ExprString(pair.Value))
+									} else {
+										kv = append(kv, types.ExprString(el))
+									}
+								}
+								r = append(r, cl.Op.String()+types.ExprString(lit.Type)+"{"+strings.Join(kv, ", ")+"}")
+								continue
+							}
+						}
+						r = append(r, types.ExprString(e))
+					}
+					vals = append(vals, "return "+strings.Join(r, ", "))
+				default:
+					vals = append(vals, fmt.Sprintf("stmt %T", st))
+				}
+			}
+		}
+		walk(fd.Body.List)
+		facts = append(facts, fact{"limit " + name, vals})
 	}
 	sort.SliceStable(facts, func(i, j int) bool { return facts[i].key < facts[j].key })
 	var sb strings.Builder
